@@ -33,8 +33,12 @@ const maxFills = 3 // appends of about one data page (128 MiB of tmpfs each) per
 
 type seamFactory struct {
 	page.Factory
-	kind string // data | index | meta
-	own  bool   // belongs to the live queue of the history (not to a crash image)
+	kind     string // data | index | meta
+	own      bool   // belongs to the live queue of the history (not to a crash image)
+	path     string // directory of the page files
+	pageSize int
+	mu       sync.Mutex
+	wrapped  map[int64]*faultPage // pages handed out (fault_test.go)
 }
 
 var (
@@ -52,21 +56,27 @@ type gcSeam struct {
 func installSeams(w *world) {
 	qsim.Install(nil)
 	seamMu.Lock()
-	seamW, seamGC, seamBusy = w, nil, false
+	seamW, seamGC, seamBusy, seamFault = w, nil, false, nil
 	seamMu.Unlock()
 	queue.VerifSetPageFactory(func(path string, pageSize int) (page.Factory, error) {
+		own := strings.HasPrefix(path, w.dir+string(filepath.Separator))
+		if own {
+			if err := faultConstruct(path); err != nil {
+				return nil, err
+			}
+		}
 		f, err := page.NewFactory(path, pageSize)
 		if err != nil {
 			return nil, err
 		}
-		return &seamFactory{Factory: qsim.Wrap(f), kind: filepath.Base(path),
-			own: strings.HasPrefix(path, w.dir+string(filepath.Separator))}, nil
+		return &seamFactory{Factory: qsim.Wrap(f), kind: filepath.Base(path), own: own,
+			path: path, pageSize: pageSize, wrapped: map[int64]*faultPage{}}, nil
 	})
 }
 
 func uninstallSeams() {
 	seamMu.Lock()
-	seamW, seamGC, seamBusy = nil, nil, false
+	seamW, seamGC, seamBusy, seamFault = nil, nil, false, nil
 	seamMu.Unlock()
 	qsim.Uninstall()
 }
@@ -94,7 +104,11 @@ func (f *seamFactory) GetPage(index int64) (page.MappedPage, bool) {
 	if f.kind == "index" {
 		f.at(1)
 	}
-	return f.Factory.GetPage(index)
+	p, ok := f.Factory.GetPage(index)
+	if !ok {
+		return nil, false
+	}
+	return f.wrapPage(index, p), true
 }
 
 func (f *seamFactory) TruncatePages(index int64) {
@@ -108,6 +122,11 @@ func (f *seamFactory) TruncatePages(index int64) {
 }
 
 func (f *seamFactory) AcquirePage(index int64) (page.MappedPage, error) {
+	if f.own {
+		if err := f.faultAcquire(index); err != nil {
+			return nil, err
+		}
+	}
 	if f.own && f.kind == "data" {
 		seamMu.Lock()
 		if w := seamW; w != nil && index > w.maxData {
@@ -119,7 +138,11 @@ func (f *seamFactory) AcquirePage(index int64) (page.MappedPage, error) {
 		}
 		seamMu.Unlock()
 	}
-	return f.Factory.AcquirePage(index)
+	p, err := f.Factory.AcquirePage(index)
+	if err != nil {
+		return nil, err
+	}
+	return f.wrapPage(index, p), nil
 }
 
 // ---- sizes relative to the room left in the data page ------------------------------------------
@@ -169,6 +192,14 @@ func (w *world) opFill() {
 		w.opPut()
 		return
 	}
+	w.fillOnly()
+	if rapid.IntRange(0, 3).Draw(w.t, "thenGC") < 3 {
+		w.check("after the fill")
+		w.opGCInterleaved()
+	}
+}
+
+func (w *world) fillOnly() {
 	leave := rapid.SampledFrom([]int{0, 0, 1, 7, 8, 9, 64, 100, 1000, 5000, 70000, nearEnd - 1}).Draw(w.t, "leave")
 	w.fills++
 	m := w.newMsg(w.room() - leave)
@@ -177,10 +208,6 @@ func (w *world) opFill() {
 		w.fatalf("%v", err)
 	}
 	w.classes["fill-to-page-end"]++
-	if rapid.IntRange(0, 3).Draw(w.t, "thenGC") < 3 {
-		w.check("after the fill")
-		w.opGCInterleaved()
-	}
 }
 
 // ---- GC interleaved with other actors ----------------------------------------------------------
